@@ -147,6 +147,8 @@ Inductive vcase : Type :=
 (* Extensions.NotifyConfig: the collector's conf, the extensions in start order (None = no
    ConfigWatcher, Some merges = what the watcher does to its copy); observed per watcher: what it
    was handed and what it holds in the end; and the collector's conf afterwards *)
+(* the encoder on a synthetic value of every shape; observed: its output (None = error) *)
+| CEnc (v : xv) (obs : option cv)
 | CNotify (conf : cv) (exts : list (option (list (path * cv)))) (obs : list (cv * cv)) (after : cv).
 
 Definition check_case (c : vcase) : bool :=
@@ -177,6 +179,11 @@ Definition check_case (c : vcase) : bool :=
   | CRound name d v obs => tv_eqb (decode_model name (o_strip d) (encode_o v)) obs
   | CSec name d sec obs =>
       list_eqb (fun a b => String.eqb (fst a) (fst b) && tv_eqb (snd a) (snd b)) (decode_section name d sec) obs
+  | CEnc v obs =>
+      match obs with
+      | None => x_bad v
+      | Some c => negb (x_bad v) && cv_eqm (encode_x v) c && cv_eqm c (encode_x v)
+      end
   | CNotify conf exts obs after =>
       let '(rs, conf') := notify conf exts in
       list_eqb (fun a b => cv_eqm (fst a) (fst b) && cv_eqm (snd a) (snd b)) rs obs && cv_eqm conf' after
@@ -192,7 +199,8 @@ Inductive vout : Type :=
 | OEff (c : cv)
 | OMis (r : dres)
 | OSec (l : list (string * tv))
-| ONotify (r : list (cv * cv) * cv).
+| ONotify (r : list (cv * cv) * cv)
+| OEnc (c : option cv).
 
 Definition model_out (c : vcase) : vout :=
   match c with
@@ -206,4 +214,5 @@ Definition model_out (c : vcase) : vout :=
   | CRound name d v _ => OFaith (decode_model name (o_strip d) (encode_o v))
   | CSec name d sec _ => OSec (decode_section name d sec)
   | CNotify conf exts _ _ => ONotify (notify conf exts)
+  | CEnc v _ => OEnc (marshal_x v)
   end.
